@@ -85,6 +85,7 @@ struct SeqRun {
             if (m.mode == 2) HZ_CHECK(v == n, "%s: skip_to_recent subscriber received %d, newest published value is %ld", how, v, n);
         }
         m.c = v; m.got.push_back(v);
+        HZ_CHECK((long)m.s->position() == v, "%s: position() is %ld after receiving the value published at position %d", how, (long)m.s->position(), v);
     }
     void settle_parked(const char *how) {
         for (auto &pm : subs) if (pm->parked && pm->parked_result != -100) { SubM &m = *pm;
@@ -170,7 +171,7 @@ struct MtProg { uint8_t count; uint8_t batch_at; uint8_t pub_yields; uint8_t fin
 inline MtProg decode_mt(hz::Reader &r) {
     MtProg p; p.count = (uint8_t)(1 + r.mod(5)); p.batch_at = (uint8_t)r.mod(6); p.pub_yields = (uint8_t)r.mod(3); p.finish = (uint8_t)r.mod(2);
     unsigned n = 1 + r.mod(3);
-    for (unsigned i = 0; i < n; i++) { Reader_ x; x.flavour = (uint8_t)r.mod(2); x.yields = (uint8_t)r.mod(3); x.mode = (uint8_t)(r.mod(4) == 0 ? 1 + r.mod(2) : 0); p.rd.push_back(x); }
+    for (unsigned i = 0; i < n; i++) { Reader_ x; x.flavour = (uint8_t)r.mod(3); x.yields = (uint8_t)r.mod(3); x.mode = (uint8_t)(r.mod(4) == 0 ? 1 + r.mod(2) : 0); p.rd.push_back(x); }
     p.second_pub = (uint8_t)(r.mod(3) == 0 ? 1 + r.mod(3) : 0);
     p.late_sub = (uint8_t)(r.mod(3) == 0 ? 1 + r.mod(4) : 0);
     p.kick0 = (uint8_t)(r.mod(4) == 0 ? 1 + r.mod(4) : 0);
@@ -184,7 +185,7 @@ inline std::string describe_mt(const MtProg &p) {
     if (p.late_sub) d << "; a late all_values subscriber subscribes concurrently (after " << (unsigned)p.late_sub << " yields)";
     if (p.kick0) d << "; subscriber 0 is kicked concurrently (after " << (unsigned)p.kick0 << " yields)";
     d << "; subscriber threads:";
-    for (auto &x : p.rd) d << " [" << (x.flavour ? "blocking next()" : "co_await next()") << ", " << modes[x.mode] << ", yield*" << (unsigned)x.yields << "]";
+    for (auto &x : p.rd) d << " [" << (x.flavour == 2 ? "range-for over the subscriber" : x.flavour ? "blocking next()" : "co_await next()") << ", " << modes[x.mode] << ", yield*" << (unsigned)x.yields << "]";
     return d.s;
 }
 
@@ -208,6 +209,11 @@ struct MtRun {
     void reader_thread(size_t i) {
         if (p->rd[i].flavour == 0) { cocls::future<void> f = reader_coro(i).start(); f.wait(); return; }
         Sub &s = *subs[i];
+        if (p->rd[i].flavour == 2) {
+            // iterator style; position() is the index of the value just received (single publisher: value == position)
+            for (int &v : s) { got[i].push_back(v); long pos = (long)s.position(); if (!p->second_pub) HZ_CHECK(pos == v, "subscriber %zu: position() is %ld after receiving the value published at position %d", i, pos, v); hz::upoints(p->rd[i].yields); }
+            return;
+        }
         for (;;) {
             hz::upoints(p->rd[i].yields);
             bool more = (bool)s.next();
